@@ -22,7 +22,8 @@ RULE = ("1-3 model descriptions, each with 0-4 systems (unique ids, arbitrary pr
         "pre/create/post, per group pre / create 0..n-1 / post, post-model); every system, agent and system-/agent-level hook "
         "saw the decoded model; the returned model holds exactly the listed systems (attributes, registry, execution order of "
         "the first timestep) and agents (ids in creation order). Non-trivial: >= 2 systems and >= 2 groups (one of size >= 2) "
-        "with a mix of present and absent hooks. Distinct = digest of the case.")
+        "with a mix of present and absent hooks. Distinct = digest of the case."
+        " Added in rounds 19-24: descriptions of a finished run (Model.decode returns a model that is already complete).")
 ASSUMPTIONS = ["system ids are unique within a description and agent-group prefixes are distinct (otherwise the documented "
                "duplicate errors apply, which is C01/C04's domain)"]
 
